@@ -2245,7 +2245,7 @@ func TestVerifReplay(t *testing.T) {
 	var gen func(cur []lex, n int)
 	gen = func(cur []lex, n int) { if len(cur) > 0 { cases = append(cases, append([]lex{}, cur...)) }; if n == 0 { return }; for _, c := range alphabet { gen(append(cur, c), n-1) } }
 	gen(nil, @L@)
-	maps := []map[string]string{{}, {"a": "1", "b": "q\"/\\\n\t", "c": "", "d": "x"}, {"A": "v", "B": "", "C": "z"}}
+	maps := []map[string]string{{}, {"a": "1", "b": "q\"/\\\n\tZoë \b\f\r√", "c": "", "d": "x"}, {"A": "vё", "B": "", "C": "z"}}
 	bad, accepted := 0, 0
 	for _, ls := range cases {
 		var sb strings.Builder
